@@ -140,7 +140,7 @@ signal.signal(signal.SIGALRM, _on_alarm)
 def gen_case(run_seed: int, tier: str, index: int = 0) -> dict:
     r = Streams(run_seed).rng("workload")
     params = dict(
-        p_graphs=Streams(run_seed).rng("graphs-attr").choice([0.0, 0.0, 0.12, 0.25]), more_ops=Streams(run_seed).rng("more-ops").random() < 0.5, n_nodes=r.choice([2, 4, 7, 10]), n_inputs=r.choice([1, 2]), n_inits=r.choice([1, 2, 3]), n_outputs=r.choice([1, 2]), n_functions=r.choice([0, 1, 2]),
+        p_graphs=Streams(run_seed).rng("graphs-attr").choice([0.0, 0.0, 0.12, 0.25]), ref_graph_attrs=Streams(run_seed).rng("ref-graph-attrs").choice([0.0, 0.0, 0.6]), more_ops=Streams(run_seed).rng("more-ops").random() < 0.5, n_nodes=r.choice([2, 4, 7, 10]), n_inputs=r.choice([1, 2]), n_inits=r.choice([1, 2, 3]), n_outputs=r.choice([1, 2]), n_functions=r.choice([0, 1, 2]),
         depth=r.choice([0, 1, 2]), typed=r.random() < 0.7, p_if=r.choice([0.15, 0.35]), metadata=r.random() < 0.6, ir_version=r.choice([9, 10, 11, 12]), name_style=r.choice([0, 0, 1]),
         init_as_input=r.choice([0.0, 0.4]), p_multi=0.2,
     )  # fmt: skip
